@@ -65,8 +65,13 @@ def make_case(index, rng, tier):
         msgs.insert(0, b"PROXY TCP4 1.2.3.4 5.6.7.8 11 22\r\n")
     total = sum(len(m) for m in msgs)
     eof = rng.randrange(1, total) if rng.randrange(6) == 0 and total > 1 else None
-    return {"msgs": [b2j(m) for m in msgs], "cfg": cfg, "floor": False, "eof_at": eof,
-            "seg": rng.choice(["max", "max", "k", "small", "bytes1"])}
+    out = {"msgs": [b2j(m) for m in msgs], "cfg": cfg, "floor": False, "eof_at": eof,
+           "seg": rng.choice(["max", "max", "k", "small", "bytes1"])}
+    if rng.randrange(12) == 0:
+        out["eof_at"] = None
+        out["seg"] = rng.choice(["k", "small", "small"])
+        out["interrupt_at"] = rng.randrange(2, 9)
+    return out
 
 
 def _cuts(case, n, choices):
@@ -98,6 +103,27 @@ def run(case, choices):
     cuts = _cuts(case, len(data), choices)
     res.faults["segmentation:" + case["seg"]] += 1
     ref, rterm = http_ref.frame(data, proxy_protocol=bool(cfgd.get("proxy_protocol")))
+    intr = case.get("interrupt_at")
+    if intr:
+        from worlds.stream import CutSock
+        res.faults["read_interrupted_by_application_timer"] += 1
+        obs, term, sock = observe(cfg, data, cuts, sock=CutSock(data, cuts, interrupt_at=intr))
+        # only what happens AFTER the interruption is judged in such a run: the application got an exception out of wsgi.input (or the
+        # head never arrived); the one thing that must not happen is that the bytes of that body are read as another request
+        # the true next request - the bytes right behind the interrupted request's body as the reference frames it - is legitimate
+        legit = False
+        if term[0] == "reject" and len(term) > 3 and term[3] is not None and 0 < len(obs) <= len(ref):
+            pos = ref[len(obs) - 1]["end"]
+            legit = data[pos:].startswith(("%s %s " % (term[3].get("method"), term[3].get("uri"))).encode("latin-1", "replace"))
+        if term[0] == "reject" and term[1] == "ReadInterrupted" and len(term) > 3 and term[3] is not None and not legit:
+            res.violate("C01:request-after-interrupted-body-read",
+                        "a timer of the application fired while wsgi.input was blocked in recv() (request %d); the application went on, the "
+                        "worker asked for the next request and the parser yielded %r out of the unread body instead of ending the connection; "
+                        "stream=%s cfg=%r seg=%s recv#%d" % (len(obs) - 1, term[3], bsafe(data, 260), cfgd, case["seg"], intr))
+        res.nontrivial = True
+        res.from_log(log)
+        res.shape = h64(data, sorted(cfgd.items()), case["seg"], intr)
+        return res
     obs, term, sock = observe(cfg, data, cuts)
     log.add("ref", "terminal", rterm)
     log.add("parser", "terminal", (len(obs), term[:2] if len(term) > 1 else term))
